@@ -199,5 +199,10 @@ func listAppend(args ...Object) Object {
 	list1 := value1.(*List)
 	list2 := value2.(*List)
 
-	return &List{Value: append(list1.Value, list2.Value...)}
+	// a new backing array: appending in place would let two results that grow from the same list overwrite each other
+	value := make([]Object, 0, len(list1.Value)+len(list2.Value))
+	value = append(value, list1.Value...)
+	value = append(value, list2.Value...)
+
+	return &List{Value: value}
 }
